@@ -118,8 +118,10 @@ pub fn key40(s: &str) -> [u8; 40] {
 // ------------------------------------------------------------------------------------------------
 // header crypto construction through wow_srp's public constructors
 
+#[cfg(feature = "encryption")]
 pub mod crypto {
     use wow_srp::normalized_string::NormalizedString;
+    #[cfg(feature = "vanilla")]
     pub mod vanilla {
         use super::NormalizedString;
         use wow_srp::vanilla_header::{DecrypterHalf, EncrypterHalf, ProofSeed};
@@ -139,6 +141,7 @@ pub mod crypto {
             (ce, cd, se, sd)
         }
     }
+    #[cfg(feature = "tbc")]
     pub mod tbc {
         use super::NormalizedString;
         use wow_srp::tbc_header::{DecrypterHalf, EncrypterHalf, ProofSeed};
@@ -158,6 +161,7 @@ pub mod crypto {
             (ce, cd, se, sd)
         }
     }
+    #[cfg(feature = "wrath")]
     pub mod wrath {
         use super::NormalizedString;
         use wow_srp::wrath_header::{ClientDecrypterHalf, ClientEncrypterHalf, ProofSeed, ServerDecrypterHalf, ServerEncrypterHalf};
@@ -190,6 +194,7 @@ macro_rules! world_table {
             use wow_world_messages::$exp as X;
             use X::opcodes::{ClientOpcodeMessage, ServerOpcodeMessage};
             use X::{ClientMessage, ServerMessage};
+            #[cfg(feature = "encryption")]
             use crate::crypto::$exp::{self as K, CE, CD, SE, SD};
 
             /// opcode-enum read -> write -> read -> write
@@ -200,6 +205,9 @@ macro_rules! world_table {
                         Err(e) => format!("{},\"consumed\":{}", world_err(&e), c.position()),
                         Ok(m) => {
                             let consumed = c.position();
+                            if crate::READ_ONLY.load(std::sync::atomic::Ordering::Relaxed) {
+                                return format!("\"result\":\"ok\",\"consumed\":{}", consumed);
+                            }
                             let mut out = Vec::new();
                             let w1 = m.$w(&mut out);
                             let mut s = format!("\"result\":\"ok\",\"consumed\":{},{}", consumed, out_field("out", &out));
@@ -225,6 +233,7 @@ macro_rules! world_table {
                 }
             }
 
+            #[cfg(feature = "encryption")]
             fn one_c<M: ClientMessage>(c: &mut Cursor<&[u8]>, d: Option<&mut SD>) -> Result<Vec<u8>, String> {
                 let r = match d {
                     None => X::expect_client_message::<M, _>(c),
@@ -235,6 +244,7 @@ macro_rules! world_table {
                     Err(e) => Err(world_err(&e)),
                 }
             }
+            #[cfg(feature = "encryption")]
             fn one_s<M: ServerMessage>(c: &mut Cursor<&[u8]>, d: Option<&mut CD>) -> Result<Vec<u8>, String> {
                 let r = match d {
                     None => X::expect_server_message::<M, _>(c),
@@ -245,14 +255,17 @@ macro_rules! world_table {
                     Err(e) => Err(world_err(&e)),
                 }
             }
+            #[cfg(feature = "encryption")]
             fn expect_client(name: &str, c: &mut Cursor<&[u8]>, d: Option<&mut SD>) -> Option<Result<Vec<u8>, String>> {
                 match name { $( stringify!($c) => Some(one_c::<X::$c>(c, d)), )* _ => None }
             }
+            #[cfg(feature = "encryption")]
             fn expect_server(name: &str, c: &mut Cursor<&[u8]>, d: Option<&mut CD>) -> Option<Result<Vec<u8>, String>> {
                 match name { $( stringify!($s) => Some(one_s::<X::$s>(c, d)), )* _ => None }
             }
 
             /// read a whole stream message by message
+            #[cfg(feature = "encryption")]
             pub fn stream(dir: &str, reader: &str, crypt: &str, names: &str, plain: &[u8]) -> String {
                 let key = crypt.strip_prefix("enc:").map(key40);
                 let mut s = String::new();
@@ -351,6 +364,9 @@ macro_rules! login_table {
                         Err(e) => format!("{},\"consumed\":{}", login_err(&e), c.position()),
                         Ok(m) => {
                             let consumed = c.position();
+                            if crate::READ_ONLY.load(std::sync::atomic::Ordering::Relaxed) {
+                                return format!("\"result\":\"ok\",\"consumed\":{}", consumed);
+                            }
                             let mut out = Vec::new();
                             let w1 = $w(&m, &mut out);
                             let mut s = format!("\"result\":\"ok\",\"consumed\":{},{}", consumed, out_field("out", &out));
@@ -409,6 +425,7 @@ pub mod tables {
 // ------------------------------------------------------------------------------------------------
 // typed construction of elastic messages (C02 boundary lengths)
 
+#[cfg(feature = "encryption")]
 mod build {
     use super::*;
 
@@ -497,18 +514,40 @@ mod build {
             }
         };
     }
+    #[cfg(feature = "vanilla")]
     build_exp!(vanilla, vanilla);
+    #[cfg(feature = "tbc")]
     build_exp!(tbc, tbc);
+    #[cfg(feature = "wrath")]
     build_exp!(wrath, wrath);
 }
 
+pub static READ_ONLY: std::sync::atomic::AtomicBool = std::sync::atomic::AtomicBool::new(false);
+
 fn handler(_id: &str, api: &str, cols: &[&str]) -> String {
+    let api = match api {
+        "W.dec" => {
+            READ_ONLY.store(true, std::sync::atomic::Ordering::Relaxed);
+            "W.read"
+        }
+        "L.dec" => {
+            READ_ONLY.store(true, std::sync::atomic::Ordering::Relaxed);
+            "L.read"
+        }
+        a => {
+            READ_ONLY.store(false, std::sync::atomic::Ordering::Relaxed);
+            a
+        }
+    };
     match api {
         "W.read" if cols.len() >= 3 => {
             let buf = unhex(cols[2]);
             match cols[0] {
+                #[cfg(feature = "vanilla")]
                 "vanilla" => tables::vanilla::read_rt(cols[1], &buf),
+                #[cfg(feature = "tbc")]
                 "tbc" => tables::tbc::read_rt(cols[1], &buf),
+                #[cfg(feature = "wrath")]
                 "wrath" => tables::wrath::read_rt(cols[1], &buf),
                 _ => "\"result\":\"noapi\"".into(),
             }
@@ -516,8 +555,11 @@ fn handler(_id: &str, api: &str, cols: &[&str]) -> String {
         "W.stream" if cols.len() >= 6 => {
             let buf = unhex(cols[5]);
             match cols[0] {
+                #[cfg(all(feature = "vanilla", feature = "encryption"))]
                 "vanilla" => tables::vanilla::stream(cols[1], cols[2], cols[3], cols[4], &buf),
+                #[cfg(all(feature = "tbc", feature = "encryption"))]
                 "tbc" => tables::tbc::stream(cols[1], cols[2], cols[3], cols[4], &buf),
+                #[cfg(all(feature = "wrath", feature = "encryption"))]
                 "wrath" => tables::wrath::stream(cols[1], cols[2], cols[3], cols[4], &buf),
                 _ => "\"result\":\"noapi\"".into(),
             }
@@ -525,8 +567,11 @@ fn handler(_id: &str, api: &str, cols: &[&str]) -> String {
         "W.build" if cols.len() >= 5 => {
             let len: usize = cols[3].parse().unwrap_or(0);
             match cols[0] {
+                #[cfg(all(feature = "vanilla", feature = "encryption"))]
                 "vanilla" => build::vanilla(cols[1], len, cols[4]),
+                #[cfg(all(feature = "tbc", feature = "encryption"))]
                 "tbc" => build::tbc(cols[1], len, cols[4]),
+                #[cfg(all(feature = "wrath", feature = "encryption"))]
                 "wrath" => build::wrath(cols[1], len, cols[4]),
                 _ => "\"result\":\"noapi\"".into(),
             }
